@@ -212,6 +212,10 @@ def run_reload(case, res):
                 return
     had_resident = any(b.valid_bit == "1" for s in ims.cache_repr().sets for b in s.blocks)
     ims.reset()
+    # right after the reset nothing of the previous program remains - also when it was never fetched
+    if ims.has_instructions() or ims.get_representation() or any(ims.instruction_at_address(4 * i) for i in range(len(o1))):
+        res.violation("C11", "reset-keeps-program", "after reset() (previous program fetched %d times) the instruction memory still holds instructions" % len(case["fetch1"]), case)
+        return
     o2 = [build_instr(d, 4 * i) for i, d in enumerate(p2)]
     ims.write_instructions(o2)
     res.count("reload_memsys")
@@ -240,9 +244,18 @@ def run_reload(case, res):
         sim = make_riscv(mode, icache=cfg)
         sim.load_program(asm_text(p1))
         k = 0
-        while not sim.is_done() and k < 200:
+        while not sim.is_done() and k < (0 if case.get("never_run") else 200):
             sim.step()
             k += 1
+        if case.get("bad_between"):
+            # a failing load in between (also when the first program was never run): nothing of it may remain
+            try:
+                sim.load_program("addi x1, x0")
+            except Exception:
+                pass
+            if sim.has_instructions() or sim.get_instruction_memory_entries():
+                res.violation("C11", "reset-keeps-program", "%s: after a failed load the previous program is still in the instruction memory" % mode, case)
+                return
         sim.load_program(asm_text(p2))
         res.count("reload_sim")
         st = sim.get_instruction_cache_stats()
@@ -376,7 +389,7 @@ def run_shard(spec, res):
             case = gen_sparse_case(rng)
         else:
             n1, n2 = rng.randint(1, 30), rng.randint(1, 30)
-            case = {"kind": "reload", "icache": rand_icfg(rng), "p1": simple_prog(rng, n1), "p2": simple_prog(rng, n2), "fetch1": [4 * rng.randrange(n1) for _ in range(rng.randint(0, 40))], "fetch2": [4 * rng.randrange(n2) for _ in range(rng.randint(1, 40))]}
+            case = {"kind": "reload", "icache": rand_icfg(rng), "p1": simple_prog(rng, n1), "p2": simple_prog(rng, n2), "fetch1": [4 * rng.randrange(n1) for _ in range(rng.choice([0, 0, rng.randint(1, 40)]))], "fetch2": [4 * rng.randrange(n2) for _ in range(rng.randint(1, 40))], "bad_between": rng.random() < 0.5, "never_run": rng.random() < 0.4}
         guarded(run_case, "C11", case, res)
         res.evaluations += 1
         if it < 1:
